@@ -3,7 +3,8 @@
 
    WIRE FORMAT (one case per line, integers):
      1 ttl maxrsvp maxcirc maxip maxasn buf limited limdata limdur memlimit svcout n
-       (ip asn flags){2n}           two source addresses per peer 1..n; flags: 1 relayed, 2 no IP
+       (ip asn flags){2n}           two source addresses per peer 1..n; flags: 1 relayed, 2 no IP,
+                                    4 = textual form only (IPv4-mapped IPv6 spelling of the same IPv4 address; ignored here: one IP)
      then operations, each   code t ARGS OBS SNAPSHOT :
        10 t p k                      peer p opens connection k (from its k-th address)
        11 t p k                      closes it
